@@ -371,7 +371,7 @@ def gen_C05(rng, tier, want='C05'):
         else:
             for _ in range(14):
                 a, b = rnd_range(rng, n)
-                k = rng.choice([0, 1, max(0, b - a - 1), max(0, b - a), b - a + 1 if b >= a else 0, rng.randrange(0, n + 1), MAXU])
+                k = min(MAXU, rng.choice([0, 1, max(0, b - a - 1), max(0, b - a), b - a + 1 if b >= a else 0, rng.randrange(0, n + 1), MAXU]))
                 L.append('q 0 quantile %d..%d %d' % (a, b, max(k, 0)))
             for _ in range(10):
                 m = rng.randrange(0, 7)
